@@ -215,7 +215,14 @@ Fixpoint findTimeScaleOfLeadingTrack (tracks : list init_track) (id : Z) : Z :=
   | t :: r => if it_id t =? id then it_timescale t else findTimeScaleOfLeadingTrack r id
   end.
 
-(* The proposed repair of the two findings (NOT in the pinned tree; [repaired = false] is the pinned
+(* Which of the proposed repairs (findings/C13-*.json) the modelled tree contains. The pinned tree
+   has none. rep_tracks: findings 1 and 2 (unsupported codec, time scale 0); rep_join: finding 3
+   (the stream processor collects the tokens of finished part tracks while it pushes). *)
+Record repairs := { rep_tracks : bool; rep_join : bool }.
+Definition no_repairs : repairs := {| rep_tracks := false; rep_join := false |}.
+Definition all_repairs : repairs := {| rep_tracks := true; rep_join := true |}.
+
+(* The proposed repair of findings 1 and 2 (NOT in the pinned tree; [repaired = false] is the pinned
    tree): before picking the leading track, reject an init with a zero time scale and keep
    only the tracks codecs.FromFMP4 knows, as the MPEG-TS path does:
        for _, track := range p.init.Tracks {
@@ -384,7 +391,8 @@ Record fsp := {
   f_init : list init_track;
   f_leadingTrackID : Z;
   f_cst : list track;                        (* clientStreamTracks *)
-  f_procs : option (list (Z * tproc))        (* trackProcessors; insertion order, last write wins *)
+  f_procs : option (list (Z * tproc));       (* trackProcessors; insertion order, last write wins *)
+  f_repJoin : bool                           (* the tree contains the repair of finding 3 *)
 }.
 
 (* Go map lookup after the insertions in list order *)
@@ -418,32 +426,47 @@ Definition fmp4_initializeTrackProcessors (p : fsp) (c : option conv) (pt : part
            end) ;;
   procs <- build_procs 0 (f_cst p) (f_init p) ;;
   Ok ({| f_isLeading := f_isLeading p; f_init := f_init p; f_leadingTrackID := f_leadingTrackID p;
-         f_cst := f_cst p; f_procs := Some procs |}, c').
+         f_cst := f_cst p; f_procs := Some procs; f_repJoin := f_repJoin p |}, c').
+
+(* joinTrackProcessors' bookkeeping. A track processor that finished an entry calls
+   onPartTrackProcessed, a send on chPartTrackProcessed whose buffer holds
+   clientMaxTracksPerStream tokens; the tokens are only read by joinTrackProcessors, after ALL
+   entries of the segment were pushed. A processor whose token does not fit stays in that send;
+   the next push to it (an unbuffered channel) then blocks for ever. *)
+Record jstate := { j_tokens : nat; j_stuck : list nat (* tp_idx of processors parked in the send *) }.
+Definition jstate0 : jstate := {| j_tokens := 0; j_stuck := [] |}.
+Definition j_is_stuck (js : jstate) (i : nat) : bool := existsb (Nat.eqb i) (j_stuck js).
+Definition j_done (rep : bool) (js : jstate) (i : nat) : jstate :=
+  if rep || (Z.of_nat (j_tokens js) <? clientMaxTracksPerStream)   (* repaired: the token is collected at once *)
+  then {| j_tokens := S (j_tokens js); j_stuck := j_stuck js |}
+  else {| j_tokens := j_tokens js; j_stuck := i :: j_stuck js |}.
 
 (* the inner loops of processSegment *)
-Fixpoint pt_loop (procs : list (Z * tproc)) (c : option conv) (elapsed : Z)
-         (pts : list part_track) (counts : list nat) : res (list nat) :=
+Fixpoint pt_loop (rep : bool) (procs : list (Z * tproc)) (c : option conv) (elapsed : Z)
+         (pts : list part_track) (counts : list nat) (js : jstate) : res (list nat * jstate) :=
   match pts with
-  | [] => Ok counts
+  | [] => Ok (counts, js)
   | pt :: r =>
       match find_proc procs (pt_id pt) with
-      | None => pt_loop procs c elapsed r counts           (* !ok: continue *)
+      | None => pt_loop rep procs c elapsed r counts js    (* !ok: continue *)
       | Some tp =>
           tc <- leadingTimeConvFMP4 c ;;
           dts <- fconvert tc (wrap64 (pt_baseTime pt)) (t_clockRate (tp_track tp)) ;;
           ntp <- fgetNTP tc dts (t_clockRate (tp_track tp)) ;;
-          n <- process tp elapsed dts ntp (pt_samples pt) ;;        (* push; the track processor runs it *)
-          pt_loop procs c elapsed r (add_count counts (tp_idx tp) n)
+          if j_is_stuck js (tp_idx tp) then Err EBlocked    (* trackProc.push never completes *)
+          else
+            n <- process tp elapsed dts ntp (pt_samples pt) ;;      (* push; the track processor runs it *)
+            pt_loop rep procs c elapsed r (add_count counts (tp_idx tp) n) (j_done rep js (tp_idx tp))
       end
   end.
 
-Fixpoint parts_loop (procs : list (Z * tproc)) (c : option conv) (elapsed : Z)
-         (parts : list part) (counts : list nat) : res (list nat) :=
+Fixpoint parts_loop (rep : bool) (procs : list (Z * tproc)) (c : option conv) (elapsed : Z)
+         (parts : list part) (counts : list nat) (js : jstate) : res (list nat * jstate) :=
   match parts with
-  | [] => Ok counts
+  | [] => Ok (counts, js)
   | p :: r =>
-      counts' <- pt_loop procs c elapsed p counts ;;
-      parts_loop procs c elapsed r counts'
+      x <- pt_loop rep procs c elapsed p counts js ;;
+      parts_loop rep procs c elapsed r (fst x) (snd x)
   end.
 
 (* processSegment for a non-nil segment *)
@@ -474,8 +497,8 @@ Definition fmp4_processSegment (p : fsp) (c : option conv) (elapsed : Z) (seg : 
                    | None => tc <- leadingTimeConvFMP4 c1 ;; Ok c1    (* setLeadingNTPReceived *)
                    end
                  else Ok c1) ;;
-          counts' <- parts_loop procs c2 elapsed parts counts ;;
-          Ok (p1, c2, counts')                 (* joinTrackProcessors blocks on partTrackCount tokens *)
+          x <- parts_loop (f_repJoin p1) procs c2 elapsed parts counts jstate0 ;;
+          Ok (p1, c2, fst x)           (* joinTrackProcessors reads partTrackCount tokens: everybody is released *)
       end
   end.
 
@@ -930,14 +953,14 @@ Definition head_tracks (h : head) : list track :=
   match h with HF p _ => f_cst p | HT p _ => s_cst p end.
 
 (* a stream up to the point where it hands its tracks to the primary downloader *)
-Definition stream_head (repaired : bool) (sc : scenario) (isLeading : bool) (r : option nat) : res head :=
+Definition stream_head (rp : repairs) (sc : scenario) (isLeading : bool) (r : option nat) : res head :=
   match nth_error (sc_streams sc) (match r with Some n => n | None => 0%nat end) with
   | None => Err EHttp
   | Some (SF s) =>
-      x <- fmp4_run_head repaired isLeading (fs_init s) ;;
+      x <- fmp4_run_head (rep_tracks rp) isLeading (fs_init s) ;;
       let '(lead, ts, init) := x in
       Ok (HF {| f_isLeading := isLeading; f_init := init; f_leadingTrackID := lead;
-                f_cst := ts; f_procs := None |} (fs_segs s))
+                f_cst := ts; f_procs := None; f_repJoin := rep_join rp |} (fs_segs s))
   | Some (ST s) =>
       match tst_segs s with
       | [] => Err ENoSegments
@@ -949,12 +972,12 @@ Definition stream_head (repaired : bool) (sc : scenario) (isLeading : bool) (r :
       end
   end.
 
-Fixpoint heads (repaired : bool) (sc : scenario) (refs : list (bool * option nat)) : res (list head) :=
+Fixpoint heads (rp : repairs) (sc : scenario) (refs : list (bool * option nat)) : res (list head) :=
   match refs with
   | [] => Ok []
   | (isLeading, r) :: rest =>
-      h <- stream_head repaired sc isLeading r ;;
-      hs <- heads repaired sc rest ;;
+      h <- stream_head rp sc isLeading r ;;
+      hs <- heads rp sc rest ;;
       Ok (h :: hs)
   end.
 
@@ -992,11 +1015,11 @@ Fixpoint run_heads (hs : list head) (c : option conv) (elapsed : Z) (acc : list 
 Definition fail_outcome (r : res unit) : outcome :=
   {| o_tracks := None; o_counts := []; o_decodeErrors := 0; o_end := r |}.
 
-Definition client_run_gen (repaired : bool) (sc : scenario) (elapsed : Z) : outcome :=
+Definition client_run_gen (rp : repairs) (sc : scenario) (elapsed : Z) : outcome :=
   match primary_streams (sc_primary sc) with
   | Err e => fail_outcome (Err e) | Panic p => fail_outcome (Panic p) | OutOfFuel => fail_outcome OutOfFuel
   | Ok refs =>
-      match heads repaired sc refs with
+      match heads rp sc refs with
       | Err e => fail_outcome (Err e) | Panic p => fail_outcome (Panic p) | OutOfFuel => fail_outcome OutOfFuel
       | Ok hs =>
           let tracks := List.concat (map head_tracks hs) in
@@ -1014,8 +1037,8 @@ Definition client_run_gen (repaired : bool) (sc : scenario) (elapsed : Z) : outc
   end.
 
 (* the pinned tree, and the tree with the proposed repair *)
-Definition client_run : scenario -> Z -> outcome := client_run_gen false.
-Definition client_run_fixed : scenario -> Z -> outcome := client_run_gen true.
+Definition client_run : scenario -> Z -> outcome := client_run_gen no_repairs.
+Definition client_run_fixed : scenario -> Z -> outcome := client_run_gen all_repairs.
 
 (* ---------- hypotheses of the partial theorem ---------- *)
 (* what mediacommon's parsers guarantee about a successfully parsed init *)
